@@ -362,6 +362,12 @@ def gen_candidates(run, g, per_class):
         x = long_list_marking(g, cid, base, rng)
         if x:
             cands.append((cid, x, "long-list-marking"))
+        # granular markings addressing every path shape of the object itself (top-level, list element, property of an
+        # embedded object inside a list, dictionary key, nested)
+        rich = g.obj(cid, 0, {"safe": True}, optional_p=0.9)
+        x = stixgen.path_marked(g, cid, rich)
+        if x:
+            cands.append((cid, x, "path-selectors"))
         # legal shapes at unusual sizes: lists of 1..256 elements, strings of length 0 / 1 / 255 / 256, dictionary keys of
         # a bound length, dictionary values nested up to 64 deep
         for lab, _slot, x in stixgen.size_variations(g, cid, base)[:1]:
